@@ -319,7 +319,7 @@ func runC15(cfg Config, args []string) int {
 	if len(args) >= 2 && args[0] == "replay" {
 		return ReplayCase("C15", args[1], func(c C15Case) CaseResult { return execC15(env, c) })
 	}
-	nFix, nSyn := cfg.N(4, 16), cfg.N(6, 44)
+	nFix, nSyn := cfg.N(5, 16), cfg.N(9, 44)
 	worlds, err := BuildWorlds(cfg, "C15", nFix, nSyn, 35, false, 0)
 	if err != nil {
 		rep0.InfraErr = err
